@@ -23,7 +23,7 @@ from ..pool import run_tasks, shard_counts
 
 PID = "C14"
 RULE = ("Hypothesis-generated expression trees (depth<=5) over 3-5 vector atoms and 2 real scalar atoms with "
-    "ops add/scale/neg/cross/dot/mixed/norm/mul/addS/pow2, repeated operands generated on purpose, a generated "
+    "ops add/scale/neg/cross/dot/mixed/norm/mul/addS/negS/pow2, repeated operands generated on purpose, a generated "
     "permutation fixing the relative id() order of the atoms, evaluated (a) through auto-evaluating constructors, "
     "(b) evaluate=False then .doit(), (c) .diff(t)/vector_diff on function-valued atoms; each compared with the "
     "harness R^3 component model under 2 rational assignments (60-digit arithmetic, tol 1e-40). "
@@ -98,7 +98,11 @@ def _sca(depth: int, k: int) -> st.SearchStrategy[Any]:
         return ["mixed", *order]
 
     return st.one_of(leaf, dotnode(), dotnode(), mixednode(), st.builds(lambda a: ["norm", a], vec),
+        # norm of a scaled vector: exercises the factor extraction |k| * norm(v)
+        st.builds(lambda k, a: ["norm", ["scale", k, a]], sub, vec),
         st.builds(lambda a, b: ["mul", a, b], sub, sub), st.builds(lambda a, b: ["addS", a, b], sub, sub),
+        st.builds(lambda a, b: ["addS", a, ["negS", b]], sub, sub), st.builds(lambda a: ["negS", a], sub),
+        st.builds(lambda a, b: ["addS", ["negS", a], ["negS", b]], sub, sub),
         st.builds(lambda a: ["pow2", a], sub))
 
 
@@ -246,6 +250,8 @@ class Built:
             return b(d[1], evaluate) * b(d[2], evaluate)
         if op == "addS":
             return b(d[1], evaluate) + b(d[2], evaluate)
+        if op == "negS":
+            return -b(d[1], evaluate)
         if op == "pow2":
             return b(d[1], evaluate)**2
         raise ValueError(op)
@@ -451,7 +457,7 @@ def run(ctx: Ctx) -> None:
         "cases whose assignment makes a norm vanish (division by zero in a derivative) are discarded and counted",
     ]
     # minimise each new bucket (bounded)
-    known = {k["key"] for k in ctx.known}
+    known = {k["key"] for k in ctx.known if k.get("status") == "open"}
     seen: set[str] = set()
     for v in list(ctx.violations):
         key = v["key"]
